@@ -218,7 +218,14 @@ def x_values(spec: dict):
     if near:
         opts.append(st.sampled_from(near))
         opts.append(st.sampled_from(near))
-    return st.one_of(*opts)
+    return st.one_of(*[o.map(_same) for o in opts])
+
+
+def _same(v):
+    """Identity map. st.floats/st.integers with equal bounds are one cached object, and one_of() drops repeated
+    objects: whether two terms with equal extents gave one alternative or two depended on the state of Hypothesis's
+    strategy cache (=> FlakyStrategyDefinition at large example counts). A mapped strategy is always a new object."""
+    return v
 
 
 # ------------------------------------------------------------------------------------------------
@@ -480,6 +487,7 @@ def input_value(var):
     opts = [st.floats(var["min"], var["max"]) if var["min"] < var["max"] else st.just(var["min"]),
             st.sampled_from([var["min"], var["max"], math.inf, -math.inf, math.nan,
                              var["min"] - 1.0, var["max"] + 1.0])]
+    opts = [o.map(_same) for o in opts]
     for t in var["terms"]:
         opts.append(x_values(t))
     return st.one_of(*opts)
